@@ -172,6 +172,10 @@ mod v1 {
                                     // kill the subscription process, as the forwarding agent is stopped
                                     return;
                                 }
+                            } else if receiver.get_status() >= crate::ActorStatus::Draining {
+                                // a skipped message must not keep the subscription of a
+                                // subscriber alive that no longer accepts messages
+                                return;
                             }
                         }
                         Ok(None) | Err(pubsub::error::RecvError::Closed) => return,
@@ -466,7 +470,9 @@ mod v2 {
                 if let Some(v) = (self.filter)(value) {
                     self.actor_ref.send_message(v)
                 } else {
-                    true
+                    // a skipped message must not keep a subscriber registered that no
+                    // longer accepts messages
+                    self.actor_ref.accepts_messages()
                 }
             }
 
@@ -478,6 +484,8 @@ mod v2 {
             type Msg: Message;
             fn send_message(&self, value: Self::Msg) -> bool;
             fn id(&self) -> ActorId;
+            /// `send_message` would not be refused because of the actor's status
+            fn accepts_messages(&self) -> bool;
         }
         impl<T: Message> ActorReference for ActorRef<T> {
             type Msg = T;
@@ -489,6 +497,10 @@ mod v2 {
             fn id(&self) -> ActorId {
                 self.get_id()
             }
+
+            fn accepts_messages(&self) -> bool {
+                self.get_status() < crate::ActorStatus::Draining
+            }
         }
         impl<T: Message> ActorReference for DerivedActorRef<T> {
             type Msg = T;
@@ -499,6 +511,10 @@ mod v2 {
 
             fn id(&self) -> ActorId {
                 self.get_id()
+            }
+
+            fn accepts_messages(&self) -> bool {
+                self.get_status() < crate::ActorStatus::Draining
             }
         }
 
